@@ -46,6 +46,8 @@ fn exec_action_inner(w: &mut World, a: &Value) -> Value {
         "Leave" => w.op_leave(c, g, ts, rank),
         "Deliver" => w.op_deliver(c, a["e"].as_str().unwrap(), ts, rank),
         "Restart" => w.op_restart(c),
+        "Forge" => w.op_forge(c, g, a["claimed"].as_str().unwrap(), a["idclass"].as_str().unwrap(), ts, a["mts"].as_u64().unwrap_or(ts)),
+        "Raw" => w.op_raw(c, g, a["kind"].as_str().unwrap(), &a["arg"], ts, rank),
         "Junk" => w.op_junk(c, g, a["class"].as_str().unwrap(), ts, rank, a["base"].as_str().unwrap_or("")),
         "Welcome" => w.op_welcome(c, a["w"].as_str().unwrap(), a["what"].as_str().unwrap(), a["fresh"].as_bool().unwrap_or(false)),
         _ => panic!("unknown op {op}"),
@@ -64,6 +66,7 @@ pub struct RandCfg {
     pub observers: bool,
     pub replay_welcomes: bool,
     pub junk: bool,
+    pub adversary: bool,
 }
 
 fn fingerprint(post: &Value) -> String {
@@ -199,6 +202,32 @@ pub fn random_history(cfg: &RandCfg, rng: &mut StdRng, r: &mut Recorder, clients
             }
             used_ranks.insert(ts * 100 + rk);
             Some(exec_action(&mut w, &json!({"op":"Commit","c":c,"g":g,"kind":kind,"arg":arg,"ts":ts,"rank":rk})))
+        } else if cfg.adversary && roll >= 84 && roll < 90 {
+            // a malicious member: forged rumors (arbitrary pubkey, pre-set ids) and raw MLS commits / proposals
+            let post = w.project(&c, g);
+            let cur_members: Vec<String> = post["members"].as_array().map(|a| a.iter().map(|x| x.as_str().unwrap().to_string()).collect()).unwrap_or_default();
+            let others: Vec<String> = cur_members.iter().filter(|x| **x != c).cloned().collect();
+            let mut rk = rank;
+            while used_ranks.contains(&(ts * 100 + rk)) { rk = rk % 15 + 1; }
+            if others.is_empty() || post["mls"] != json!("ok") { None } else {
+                let victim = others[rng.gen_range(0..others.len())].clone();
+                match rng.gen_range(0..7) {
+                    0 => Some(exec_action(&mut w, &json!({"op":"Forge","c":c,"g":g,"claimed":victim,"idclass":"none","ts":ts,"mts":clock}))),
+                    1 => Some(exec_action(&mut w, &json!({"op":"Forge","c":c,"g":g,"claimed":c,"idclass":"random","ts":ts,"mts":clock}))),
+                    2 => {
+                        // pre-set the id of an existing message of somebody else
+                        let known: Vec<String> = post["msgs"].as_array().map(|a| a.iter().filter(|m| m["author"] != json!(c)).map(|m| m["id"].as_str().unwrap().to_string()).collect()).unwrap_or_default();
+                        if known.is_empty() { None } else {
+                            let t = known[rng.gen_range(0..known.len())].clone();
+                            Some(exec_action(&mut w, &json!({"op":"Forge","c":c,"g":g,"claimed":c,"idclass":format!("other:{t}"),"ts":ts,"mts":clock})))
+                        }
+                    }
+                    3 => { used_ranks.insert(ts * 100 + rk); Some(exec_action(&mut w, &json!({"op":"Raw","c":c,"g":g,"kind":"rename","arg":format!("raw{}", rng.gen_range(0..3)),"ts":ts,"rank":rk}))) }
+                    4 => { used_ranks.insert(ts * 100 + rk); Some(exec_action(&mut w, &json!({"op":"Raw","c":c,"g":g,"kind":"remove","arg":[victim],"ts":ts,"rank":rk}))) }
+                    5 => { used_ranks.insert(ts * 100 + rk); Some(exec_action(&mut w, &json!({"op":"Raw","c":c,"g":g,"kind":"admins_self","arg":"","ts":ts,"rank":rk}))) }
+                    _ => { used_ranks.insert(ts * 100 + rk); Some(exec_action(&mut w, &json!({"op":"Raw","c":c,"g":g,"kind":"prop_remove","arg":[victim],"ts":ts,"rank":rk}))) }
+                }
+            }
         } else if cfg.junk && roll >= 90 && roll < 96 {
             let classes = ["badkind", "noh", "multih", "shorth", "nonhexh", "stale", "future", "nogroup", "undecryptable", "mlsjunk", "truncated", "bitflip"];
             let class = classes[rng.gen_range(0..classes.len())];
